@@ -20,7 +20,10 @@ for nm in sorted(os.listdir(os.path.join(HERE, "seeded"))):
     m = json.load(open(f))
     res = m.get("check_results", [])
     hit = [r for r in res if r.get("rc") == 1]
-    if hit:
+    at_head = m.get("at_head", {})
+    if at_head.get("demo_patched_rc") == 0 and at_head.get("demo_clean_rc") == 0:
+        caught = "n/a at the final HEAD: its demo passes with the patch applied - the change was neutralised by a later `fix:` commit" + ((" (before that: %s)" % "; ".join("%s %s" % (r["check"], (r.get("labels") or "").strip()) for r in hit)) if hit else "")
+    elif hit:
         caught = "; ".join("%s %s" % (r["check"], (r.get("labels") or "").strip() or "(violation)") for r in hit)
     elif m.get("outside_claim"):
         caught = "**not caught — outside the claim**: " + m["outside_claim"]
@@ -33,5 +36,6 @@ print("| seeded change | what it does | what it needs to manifest | caught by (q
 print("|---|---|---|---|")
 print("\n".join(rows))
 n = len(rows)
-d = sum(1 for r in rows if "**" not in r.split("|")[-2])
-print("\n%d seeded changes, %d reported by the quick check of their property." % (n, d), file=sys.stderr)
+na = sum(1 for r in rows if "n/a at the final HEAD" in r)
+d = sum(1 for r in rows if "**" not in r.split("|")[-2] and "n/a at the final HEAD" not in r)
+print("\n%d seeded changes; %d no longer break anything at the final HEAD; of the other %d, %d are reported (exit 1, replay confirmed) by a registered quick check." % (n, na, n - na, d), file=sys.stderr)
